@@ -6,8 +6,8 @@ Layers (DESIGN.md §8 C05):
               select        real ChangingRegistry.iter_handlers, exhaustive over cause x handler fields
               decorators    kopf.on.* -> (reason, initial, deleted, requires_finalizer)
               finalizers    real finalizers.is_deletion_ongoing/is_deletion_blocked/block_deletion/allow_deletion
-              detect_causes real processing._detect_causes on random real bodies (real storages)
-              cycle         real processing.process_resource_causes with recording handlers (one pass and
+              pass          real processing._detect_causes (cause vs detect_body) and
+                            real processing.process_resource_causes (vs cycle) with recording handlers (one pass and
                             closed-loop histories: patch applied to a server-side object, echoed back)
   monitors    the property text evaluated on what the implementation did: precedence list on the detector's
               answers; per-invocation rules (kind vs. server-side state) on every pass of the real reactor.
@@ -64,9 +64,24 @@ def cbody(body: Any) -> str:
 
 
 def chdecl(key: int, reason: Any, initial: Any, deleted: Any, reqfin: Any, prematch: bool, match: bool) -> str:
-    return (f'{{| h_key := {cq.cnat(key)}; h_reason := {coreason(reason)}; h_initial := {cob(initial)}; '
-            f'h_deleted := {cob(deleted)}; h_reqfin := {cob(reqfin)}; h_prematch := {cq.cbool(prematch)}; '
-            f'h_match := {cq.cbool(match)} |}}')
+    # Build_hdecl h_key h_reason h_initial h_deleted h_reqfin h_prematch h_match
+    return (f'(Build_hdecl {key} {coreason(reason)} {cob(initial)} {cob(deleted)} {cob(reqfin)} {cq.cbool(prematch)} '
+            f'{cq.cbool(match)})')
+
+
+def core(body: Any) -> Any:
+    """Python twin of Model/Causes.v core_body (C05_reads_only_core: the model gives the same answers on it)."""
+    if not isinstance(body, dict):
+        return body
+    if 'metadata' not in body:
+        return {}
+    md = body['metadata']
+    if isinstance(md, dict):
+        return {'metadata': {k: v for k, v in md.items() if k in ('deletionTimestamp', 'finalizers')}}
+    return {'metadata': md}
+
+
+_PASS_COUNTER = [0]
 
 
 # --------------------------------------------------------------------------------------------
@@ -342,11 +357,27 @@ def gen_metadata_variant(r: Any, G: g.Gen, body: dict) -> dict:
     return b
 
 
+def small_body(r: Any, G: g.Gen) -> dict:
+    b: dict[str, Any] = {'apiVersion': 'kopf.dev/v1', 'kind': 'KopfExample'}
+    if r.random() < 0.95:
+        md: dict[str, Any] = {'name': r.choice(['obj1', 'obj2'])}
+        if r.random() < 0.5:
+            md['labels'] = G.labels()
+        if r.random() < 0.3:
+            md['annotations'] = {'note': r.choice(g.WORDS)}
+        b['metadata'] = md
+    if r.random() < 0.8:
+        b['spec'] = G.obj(1)
+    if r.random() < 0.3:
+        b['status'] = G.obj(1)
+    return b
+
+
 def run_finalizers(ctx: fw.Ctx, env: Env, G: g.Gen, n: int) -> dict[str, list[fw.Case]]:
     out: dict[str, list[fw.Case]] = {'fin_ongoing': [], 'fin_blocked': [], 'fin_block': [], 'fin_allow': []}
     r = ctx.rng
     for _ in range(n):
-        body = gen_metadata_variant(r, G, G.body())
+        body = gen_metadata_variant(r, G, small_body(r, G))
         fin = FIN if r.random() < 0.8 else r.choice(['other/finalizer', 'x', 'kopf.zalando.org'])
         try:
             mb = cbody(body)
@@ -475,23 +506,25 @@ def run_pass(env: Env, R: Registry, memory_box: dict, ev: Any, obj: dict, carrie
 
 
 def pass_case(env: Env, R: Registry, ev: Any, obj: dict, carried: dict | None, obs: dict, data: dict) -> list[tuple[str, fw.Case]]:
-    """Coq cases of one pass: `_detect_causes` vs detect_body, and the whole pass vs cycle."""
+    """The Coq case of one pass: the cause returned by the real `_detect_causes` vs detect_body, AND the whole pass
+    (cause handed on, handlers invoked, finalizer decisions) vs cycle. One term, so that the body is parsed once."""
+    _PASS_COUNTER[0] += 1
+    full = _PASS_COUNTER[0] % 8 == 0      # every 8th body is sent in full; the others as core_body (proved equivalent)
     try:
-        mb = cbody(obj)
+        mb = cbody(obj if full else core(obj))
     except cq.Unencodable:
         return []
-    out: list[tuple[str, fw.Case]] = []
     cause = obs['cause']
     old_none = cause is not None and cause.old is None
     diff_empty = cause is not None and not cause.diff
     initial = obs['initial']
     fl = f'{cq.cbool(old_none)} {cq.cbool(diff_empty)} {cq.cbool(initial)}'
+    info: dict[str, Any] = {'old_none': old_none, 'diff_empty': diff_empty, 'initial': initial, 'body_sent_in_full': full}
+    t_detect = 'true'
     if cause is not None:
         got = (str(cause.reason), bool(cause.initial))
-        out.append(('detect_causes', fw.Case(
-            f'res_eqb cause_eqb (detect_body {cq.cstr(FIN)} {CEV[ev]} {mb} {fl}) (Ok {ccause(*got)})',
-            {**data, 'detected': got, 'old_none': old_none, 'diff_empty': diff_empty, 'initial': initial},
-            diag=f'detect_body {cq.cstr(FIN)} {CEV[ev]} {mb} {fl}')))
+        t_detect = f'res_eqb cause_eqb (detect_body {cq.cstr(FIN)} {CEV[ev]} b {fl}) (Ok {ccause(*got)})'
+        info['detected'] = got
     hdecls = []
     for h, key in zip(R.handlers, R.keys):
         if cause is not None:
@@ -501,19 +534,21 @@ def pass_case(env: Env, R: Registry, ev: Any, obj: dict, carried: dict | None, o
             pm = mt = False
         hdecls.append(chdecl(key, h.reason, h.initial, h.deleted, h.requires_finalizer, pm, mt))
     consistent = not carried
-    call = f'cycle {cq.cstr(FIN)} {CEV[ev]} {mb} {fl} {cq.cbool(consistent)} {cq.clist(hdecls)}'
+    call = f'cycle {cq.cstr(FIN)} {CEV[ev]} b {fl} {cq.cbool(consistent)} {cq.clist(hdecls)}'
     if obs['outcome'] == 'ok':
         inv = [R.keys[c['reg']] for c in obs['calls']]     # the registration invoked is known from its param kwarg
         ch = obs['changing']
         ccs = 'None' if not ch else f'(Some {ccause(*ch[0])})'
-        term = (f'match {call} with Ok c => cycle_eqb c {ccs} {cq.clist(cq.cnat(k) for k in inv)} {cq.cbool(obs["block"])} '
-                f'{cq.cbool(obs["allow_early"])} | _ => false end')
-        out.append(('cycle', fw.Case(term, {**data, 'invoked': [c['reg'] for c in obs['calls']], 'changing': ch,
-                                            'block': obs['block'], 'allow_early': obs['allow_early']}, diag=call)))
+        t_cycle = (f'match {call} with Ok c => cycle_eqb c {ccs} {cq.clist(cq.cnat(k) for k in inv)} {cq.cbool(obs["block"])} '
+                   f'{cq.cbool(obs["allow_early"])} | _ => false end')
+        info.update({'invoked': [c['reg'] for c in obs['calls']], 'changing': ch, 'block': obs['block'],
+                     'allow_early': obs['allow_early']})
     else:
-        exp = canon.cres(obs['outcome'])
-        out.append(('cycle', fw.Case(f'res_eqb (fun _ _ => true) ({call}) {exp}', {**data, 'outcome': obs['outcome']}, diag=call)))
-    return out
+        t_cycle = f'res_eqb (fun _ _ => true) ({call}) {canon.cres(obs["outcome"])}'
+        info['outcome'] = obs['outcome']
+    term = f'let b := {mb} in ({t_detect}) && ({t_cycle})'
+    diag = f'let b := {mb} in (detect_body {cq.cstr(FIN)} {CEV[ev]} b {fl}, {call})'
+    return [('pass', fw.Case(term, {**data, 'implementation': info}, diag=diag))]
 
 
 def monitor_pass(ctx: fw.Ctx, R: Registry, ev: Any, obj: dict, obs: dict, data: dict, never_handled: bool, changed: bool,
@@ -812,14 +847,17 @@ def run(ctx: fw.Ctx) -> int:
         return ctx.finish(RULE)
     env = Env()
     G = g.Gen(ctx.rng)
-    D: dict[str, list[fw.Case]] = {k: [] for k in ('detect_causes', 'cycle', 'detect_causes_hist', 'cycle_hist')}
+    D: dict[str, list[fw.Case]] = {k: [] for k in ('pass', 'pass_hist')}
     seeded_corpus(ctx, env, D)
     detect_cases = run_detect_table(ctx, env)
     select_cases = run_select_table(ctx, env)
     deco_cases = run_decorator_table(ctx, env)
-    fin_cases = run_finalizers(ctx, env, G, ctx.scale(600, 20000))
+    fin_cases = run_finalizers(ctx, env, G, ctx.scale(500, 20000))
     run_passes(ctx, env, G, ctx.scale(2000, 15000), D)
     run_histories(ctx, env, G, ctx.scale(150, 1000), ctx.scale(40, 60), D)
+    if _LOOP.get('loop') is not None:
+        _LOOP['loop'].close()
+        _LOOP['loop'] = None
     ctx.differential('detect', HEADER, detect_cases, shard=200)
     ctx.differential('select', HEADER, select_cases, shard=800)
     ctx.differential('decorators', HEADER, deco_cases, shard=50)
